@@ -47,8 +47,15 @@ def main():
     sys.setrecursionlimit(3000)
     if os.environ.get("VERIF_DUMP_AFTER"):
         # where a straggler spends its time: a traceback every N seconds on the shard's log
-        import faulthandler
-        faulthandler.dump_traceback_later(int(os.environ["VERIF_DUMP_AFTER"]), repeat=True)
+        import threading
+
+        def _dump(every=int(os.environ["VERIF_DUMP_AFTER"]), main=threading.main_thread().ident):
+            while True:
+                time.sleep(every)
+                fr = sys._current_frames().get(main)
+                sys.stderr.write(f"--- after {time.time() - T0:.0f} s ---\n" + "".join(traceback.format_stack(fr)[-14:]))
+                sys.stderr.flush()
+        threading.Thread(target=_dump, daemon=True, name="vp-dump").start()
     ctx = Ctx(prop, tier, int(seed), int(shard), int(nshards), payload)
     cov = None
     if int(shard) == int(nshards) - 1 and mode == "run" and os.environ.get("VERIF_NO_COVERAGE") != "1":
